@@ -9,11 +9,15 @@ CFG = dict(
                "modelled loop equals the documented 'last relevant range directive wins, line directives cover their line' "
                "specification. The model (comment parsing, stable sort, cut-off, state machine, filter) is tied to the code on "
                "every run by predicting the noqa-on violation list from the noqa-off list and the real comment leaves.",
-    level_note="Trusted: Coq kernel; the model is hand-written (tie = sampled correspondence, ~1.7k files quick / ~22k thorough); "
+    level_note="Trusted: Coq kernel; the model is hand-written (tie = sampled correspondence, ~3.2k files quick / ~40k thorough); "
                "Rust trim()/split() modelled for ASCII; rule bodies are not modelled (their output is the recorded noqa-off list).",
     rule="generated SQL files (2-7 lines of statements that violate CP01/LT01/AL02/...) with README-form "
          "noqa directives (group readme) or malformed/odd directives (group odd) on random lines, 13 dialects, "
-         "6 rule selections; each linted with noqa off and on; the Coq model of parse+mask is run on the real "
+         "6 rule selections; the same lines behind up to 60 lines of padding and at random indentation; one select list over "
+         "many lines with directives before / between / behind the aliased columns of a line; the (line, column) grid of a "
+         "leading and a trailing range directive; the same under templater = placeholder (8 parameter styles, values shorter / "
+         "longer than the placeholder or spanning several lines, set through the ini text or the configuration object; "
+         "positions compared are source positions); some files with CRLF line ends; each linted with noqa off and on; the Coq model of parse+mask is run on the real "
          "comment leaves and the noqa-off violation list and must predict the noqa-on list exactly. "
          "non-trivial = at least one violation is masked; distinct = distinct (comments, violations) tuples",
     assumptions=["comment texts are ASCII (Rust trim() is modelled for ASCII whitespace only; non-ASCII comments are skipped and counted)",
